@@ -213,6 +213,86 @@ theorem genesisPool_ok {L L1 : Ledger} {e : Nat × Nat} (hf : e.1 ∉ L.pools.ma
     simp only [bal, accSum, poolSum, stakeSum, poolPut]
     omega
 
+/-! ### genesis order books: the escrow credit on top of the listed pools -/
+
+/-- what the order-book loading leaves alone and what it keeps true -/
+structure BooksOk (L L' : Ledger) : Prop where
+  ident : L'.supply.total = bal L'
+  le : L'.supply.total ≤ MAXU
+  rest : SameRest L L'
+  accounts : L'.accounts = L.accounts
+  committeesData : L'.committeesData = L.committeesData
+
+theorem genesisOrder_ok {chain : Nat} {L L1 : Ledger} {amt : Nat} (hb : L.supply.total = bal L) (hx : amt ≤ MAXU)
+    (h : genesisOrder chain L amt = .ok L1) : BooksOk L L1 := by
+  unfold genesisOrder at h
+  split at h
+  · exact absurd h (by intro h; cases h)
+  · next hg =>
+    obtain rfl := Except.ok.inj h
+    have hpl := poolGet_le L (chain + Canopy.Gen.LedgerFacts.escrowPoolAddend)
+    have hlt : poolGet { L with supply := { L.supply with total := L.supply.total + amt } } (chain + Canopy.Gen.LedgerFacts.escrowPoolAddend) + amt < U64 := by
+      show poolGet L _ + amt < U64
+      unfold bal at hb; unfold MAXU at hg hx; unfold U64; omega
+    obtain ⟨p, e2, e3⟩ := poolAdd_noWrap { L with supply := { L.supply with total := L.supply.total + amt } } (chain + Canopy.Gen.LedgerFacts.escrowPoolAddend) amt hlt
+    generalize hX : poolAdd { L with supply := { L.supply with total := L.supply.total + amt } } (chain + Canopy.Gen.LedgerFacts.escrowPoolAddend) amt = X at e2 e3 ⊢
+    have ep : poolSum { L with supply := { L.supply with total := L.supply.total + amt } } = poolSum L := rfl
+    rw [ep] at e3
+    subst e2
+    refine ⟨?_, ?_, by constructor <;> rfl, rfl, rfl⟩
+    · show L.supply.total + amt = _
+      have ea : accSum { L with supply := { L.supply with total := L.supply.total + amt }, pools := p } = accSum L := rfl
+      have es : stakeSum { L with supply := { L.supply with total := L.supply.total + amt }, pools := p } = stakeSum L := rfl
+      unfold bal at hb ⊢
+      rw [ea, es, e3]
+      omega
+    · show L.supply.total + amt ≤ MAXU
+      unfold MAXU at hg hx ⊢; omega
+
+theorem BooksOk.trans {A B C : Ledger} (h1 : BooksOk A B) (h2 : BooksOk B C) : BooksOk A C :=
+  ⟨h2.ident, h2.le, h1.rest.trans h2.rest, h2.accounts.trans h1.accounts, h2.committeesData.trans h1.committeesData⟩
+
+theorem foldlM_genesisOrder_ok (chain : Nat) : ∀ (amts : List Nat) (L L' : Ledger), L.supply.total = bal L → L.supply.total ≤ MAXU →
+    (∀ x ∈ amts, x ≤ MAXU) → amts.foldlM (genesisOrder chain) L = .ok L' → BooksOk L L'
+  | [], L, L', hb, hl, _, h => by obtain rfl := Except.ok.inj h; exact ⟨hb, hl, SameRest.refl _, rfl, rfl⟩
+  | x :: amts, L, L', hb, hl, hx, h => by
+    simp only [List.foldlM_cons] at h
+    obtain ⟨L1, h1, h2⟩ := bind_ok h
+    have k1 := genesisOrder_ok hb (hx x (List.mem_cons_self ..)) h1
+    exact k1.trans (foldlM_genesisOrder_ok chain amts L1 L' k1.ident k1.le (fun y hy => hx y (List.mem_cons_of_mem _ hy)) h2)
+
+/-- `SetOrderBooks` on a ledger whose recorded total is the real sum: it still is afterwards (every order's amount
+goes to the total and to the escrow pool), and nothing but the pools and the total changed -/
+theorem foldlM_genesisBook_ok : ∀ (books : List GenesisBook) (L L' : Ledger), L.supply.total = bal L → L.supply.total ≤ MAXU →
+    (∀ b ∈ books, ∀ x ∈ b.2, x ≤ MAXU) → books.foldlM genesisBook L = .ok L' → BooksOk L L'
+  | [], L, L', hb, hl, _, h => by obtain rfl := Except.ok.inj h; exact ⟨hb, hl, SameRest.refl _, rfl, rfl⟩
+  | b :: books, L, L', hb, hl, hx, h => by
+    simp only [List.foldlM_cons] at h
+    obtain ⟨L1, h1, h2⟩ := bind_ok h
+    have k1 := foldlM_genesisOrder_ok b.1 b.2 L L1 hb hl (hx b (List.mem_cons_self ..)) h1
+    exact k1.trans (foldlM_genesisBook_ok books L1 L' k1.ident k1.le (fun b' hb' => hx b' (List.mem_cons_of_mem _ hb')) h2)
+
+/-- … and, without any hypothesis, it touches nothing but the pools and the total -/
+theorem foldlM_genesisBook_rest : ∀ (books : List GenesisBook) (L L' : Ledger), books.foldlM genesisBook L = .ok L' → SameRest L L'
+  | [], L, L', h => by obtain rfl := Except.ok.inj h; exact SameRest.refl _
+  | b :: books, L, L', h => by
+    simp only [List.foldlM_cons] at h
+    obtain ⟨L1, h1, h2⟩ := bind_ok h
+    have inner : ∀ (amts : List Nat) (A B : Ledger), amts.foldlM (genesisOrder b.1) A = .ok B → SameRest A B := by
+      intro amts
+      induction amts with
+      | nil => intro A B h; obtain rfl := Except.ok.inj h; exact SameRest.refl _
+      | cons x amts ih =>
+        intro A B h
+        simp only [List.foldlM_cons] at h
+        obtain ⟨A1, g1, g2⟩ := bind_ok h
+        unfold genesisOrder at g1
+        split at g1
+        · exact absurd g1 (by intro h; cases h)
+        · obtain rfl := Except.ok.inj g1
+          exact (show SameRest A _ by constructor <;> rfl).trans (ih _ B g2)
+    exact (inner b.2 L L1 h1).trans (foldlM_genesisBook_rest books L1 L' h2)
+
 /-- genesis accounts: the running total and the real sum grow together -/
 theorem foldlM_genesisAccount : ∀ (es : List (Addr × Nat)) (L L' : Ledger),
     (es.map (·.1)).Nodup → (∀ e ∈ es, e.1 ∉ L.accounts.map (·.1)) → (∀ e ∈ es, e.2 ≤ MAXU) → es.foldlM genesisAccount L = .ok L' →
@@ -378,9 +458,10 @@ theorem foldlM_genesisValidator : ∀ (gs : List GenesisValidator) (L L' : Ledge
 /-- a genesis that the loader accepts (in particular: no address or pool id listed twice, the running total never
 overflows) yields a ledger whose recorded total is the exact sum of everything it holds -/
 theorem genesis_invSupply {cfg : Config} {params : Params} {accounts : List (Addr × Nat)} {pools : List (Nat × Nat)}
-    {vals : List GenesisValidator} {retired : List Nat} {L : Ledger}
+    {vals : List GenesisValidator} {retired : List Nat} {books : List GenesisBook} {L : Ledger}
     (ha : ∀ e ∈ accounts, e.2 ≤ MAXU) (hp : ∀ e ∈ pools, e.2 ≤ MAXU) (hv : ∀ g ∈ vals, g.val.stake ≤ MAXU)
-    (h : genesis cfg params accounts pools vals retired = .ok L) : InvSupply L := by
+    (ho : ∀ b ∈ books, ∀ x ∈ b.2, x ≤ MAXU)
+    (h : genesis cfg params accounts pools vals retired books = .ok L) : InvSupply L := by
   unfold genesis at h
   split at h
   · exact absurd h (by intro h; cases h)
@@ -414,6 +495,9 @@ theorem genesis_invSupply {cfg : Config} {params : Params} {accounts : List (Add
                   split at h
                   · exact absurd h (by intro h; cases h)
                   · next L3 h3 =>
+                    split at h
+                    · exact absurd h (by intro h; cases h)
+                    next L4 h4 =>
                     obtain rfl := Except.ok.inj h
                     obtain ⟨a1, a2, a3, a4⟩ := foldlM_genesisAccount accounts _ L1 na (by intro e _ hm; simp at hm) ha h1
                     obtain ⟨p1, p2, p3, p4⟩ := foldlM_genesisPool pools L1 L2 np (by
@@ -423,12 +507,14 @@ theorem genesis_invSupply {cfg : Config} {params : Params} {accounts : List (Add
                     have z : bal ({ cfg := cfg, params := params, height := 0 } : Ledger) = 0 := rfl
                     have zt : ({ cfg := cfg, params := params, height := 0 } : Ledger).supply.total = 0 := rfl
                     rw [z, zt] at a1
-                    have hb : bal { L3 with retired := retired, height := 1 } = bal L3 := rfl
                     have hle : L3.supply.total ≤ MAXU := v2 (p2 (a2 (by rw [zt]; exact Nat.zero_le _)))
+                    have k := foldlM_genesisBook_ok books L3 L4 (by omega) hle ho h4
+                    have hb : bal { L4 with retired := retired, height := 1 } = bal L4 := rfl
                     refine ⟨?_, ?_⟩
-                    · show L3.supply.total = _; rw [hb]; omega
-                    · show L3.supply.total < U64
+                    · show L4.supply.total = _; rw [hb]; exact k.ident
+                    · show L4.supply.total < U64
                       have : MAXU < U64 := by decide
+                      have := k.le
                       omega
 
 end Canopy.Ledger
